@@ -403,6 +403,8 @@ func propC06(w *World, r *Report, tier string) {
 		r.Expect("step.zuc", 4)
 		r.Expect("drv.snow3g", 3)
 		r.Expect("drv.zuc", 3)
+		r.Expect("drv.callers", 14)
+		r.Expect("pure.no-state", 6)
 		r.Expect("iv.nea", 3)
 		r.Expect("out.nea", 29)
 		r.Expect("wrap.args", 12)
@@ -414,6 +416,8 @@ func propC06(w *World, r *Report, tier string) {
 		checkSnowDriver(c, n)
 		checkZucDriver(c, n)
 	}
+	checkCipherCallers(c)
+	checkCipherPurity(c, [][2]string{{"security", "NASEncrypt"}, {"security", "NEA1"}, {"security", "NEA2"}, {"security", "NEA3"}, {"security/snow3g", "GetKeyStream"}, {"security/zuc", "Zuc"}})
 	checkNEA(c, tier)
 	checkWrapper(c, "NASEncrypt", map[int]string{1: "NEA1", 2: "NEA2", 3: "NEA3"}, 0)
 }
